@@ -47,7 +47,7 @@ func init() {
 	}
 	simsFor["C06"] = []simWeight{{"lib", 3}, {"cli", 1}}
 	register(crashSim{})
-	simsFor["C05"] = []simWeight{{"lib", 12}, {"clicrash", 1}}
+	simsFor["C05"] = []simWeight{{"lib", 12}, {"clicrash", 1}, {"c13", 2}}
 	register(cliSim{})
 	for _, p := range []string{"C08", "C09", "C10", "C11", "C18", "C20"} {
 		simsFor[p] = []simWeight{{"cli", 1}}
